@@ -19,7 +19,7 @@ import (
 	"verif/internal/model"
 )
 
-const rule = "cases: option maps whose host is drawn from a grammar {IPv4 literal, IPv6 literal in every compression form, embedded IPv4, v4-mapped, with zone, with port, bracketed, leading zeros, surrounding whitespace, hostname, empty, 255 bytes, arbitrary bytes}, port from {canonical decimal, leading zeros, +/- sign, spaces, 0, 65535, 65536, 2^63, 2^64, hex, empty}, caps ending / not ending in 6, keys that are prefixes or extensions of the well-known keys (hos, host1, s1, ii, Host), s / i values of 31/32/33 and 15/16/17 raw bytes and their I2P-base64 text forms (padded, unpadded, alphabet strings of neighbouring lengths); each map through NewRouterAddress, through model-encode -> ReadRouterAddress, and through an encoding whose pairs are not in key order (reversed, rotated). For half of the constructed addresses the options are then replaced through the exported field and every accessor is checked again against the options in effect. Oracle: own IP-literal recogniser (cross-checked with net/netip; a disagreement between the two oracles makes the case inconclusive and is counted) - Host() succeeds <=> literal and returns that address; HasValidHost <=> Host() ok; IPVersion = family when the host is valid; Port() succeeds <=> optional sign + decimal digits with value 1..65535 and returns the canonical decimal; HasValidPort <=> Port() ok; GetOption(k) = lookup of exactly k; StaticKey / InitializationVector ok <=> 32 / 16 bytes. Non-trivial: host or port option present; distinct by (host, port, caps, path)."
+const rule = "cases: option maps whose host is drawn from a grammar {IPv4 literal, IPv6 literal in every compression form, embedded IPv4, v4-mapped, with zone, with port, bracketed, leading zeros, surrounding whitespace, hostname, empty, 255 bytes, arbitrary bytes}, port from {canonical decimal, leading zeros, +/- sign, spaces, 0, 65535, 65536, 2^63, 2^64, hex, empty}, caps ending / not ending in 6, keys that are prefixes or extensions of the well-known keys (hos, host1, s1, ii, Host), s / i values of 31/32/33 and 15/16/17 raw bytes and their I2P-base64 text forms (padded, unpadded, alphabet strings of neighbouring lengths); each map through NewRouterAddress, through model-encode -> ReadRouterAddress, and through an encoding whose pairs are not in key order (reversed, rotated). For half of the constructed addresses the options are then replaced through the exported field and every accessor is checked again against the options in effect. Oracle: own IP-literal recogniser (cross-checked with net/netip; a disagreement between the two oracles makes the case inconclusive and is counted) - Host() succeeds <=> literal and returns that address; HasValidHost <=> Host() ok; IPVersion = family when the host is valid; Port() succeeds <=> optional sign + decimal digits with value 1..65535 and returns the canonical decimal; HasValidPort <=> Port() ok; GetOption(k) = lookup of exactly k, and so do the named lookups (HostString .. ProtocolVersionString, Introducer{Hash,Expiration,Tag}String(0..2)) for their own keys, with any subset of ih / iexp / itag 0..3 present one case in four; StaticKey / InitializationVector ok <=> 32 / 16 bytes. Non-trivial: host or port option present; distinct by (host, port, caps, path)."
 
 func TestMain(m *testing.M) { ev.Main(m, "C17", rule) }
 
@@ -289,6 +289,41 @@ func checkAddr(path string, a router_address.RouterAddress, c Case, r *ev.Rec) e
 			}
 		}
 	}
+	// --- the named lookups: each returns what is stored under exactly its own key (and nothing
+	// when that key is absent), whatever is stored under neighbouring keys
+	named := []struct {
+		key string
+		got data.I2PString
+	}{
+		{"host", a.HostString()}, {"port", a.PortString()}, {"caps", a.CapsString()},
+		{"s", a.StaticKeyString()}, {"i", a.InitializationVectorString()}, {"v", a.ProtocolVersionString()},
+	}
+	for n := 0; n <= 2; n++ {
+		named = append(named, struct {
+			key string
+			got data.I2PString
+		}{fmt.Sprintf("ih%d", n), a.IntroducerHashString(n)}, struct {
+			key string
+			got data.I2PString
+		}{fmt.Sprintf("iexp%d", n), a.IntroducerExpirationString(n)}, struct {
+			key string
+			got data.I2PString
+		}{fmt.Sprintf("itag%d", n), a.IntroducerTagString(n)})
+	}
+	for _, nl := range named {
+		want, present := lookup(c.Opts, nl.key)
+		if present != (nl.got != nil) {
+			return fmt.Errorf("%s: option %q present=%v but its named accessor returns non-nil=%v", path, nl.key, present, nl.got != nil)
+		}
+		if present {
+			if d, err := nl.got.Data(); err != nil || d != want {
+				return fmt.Errorf("%s: the named accessor of option %q returns %q (%v), stored value is %q", path, nl.key, d, err, want)
+			}
+			if nl.key[0] == 'i' && len(nl.key) > 1 {
+				r.Class("introducer-option-present")
+			}
+		}
+	}
 	// --- static key and IV
 	sv, hasS := lookup(c.Opts, "s")
 	sk, serr := a.StaticKey()
@@ -469,6 +504,16 @@ func genCase(t *rapid.T) Case {
 	for _, k := range []string{"hos", "host1", "s1", "ii", "Host", "h", "por", "port2", "v", "ih0", "iexp1"} {
 		if rapid.IntRange(0, 4).Draw(t, "extra") == 0 {
 			add(k, rapid.SampledFrom([]string{"1.2.3.4", "80", "x", ""}).Draw(t, "extraval"))
+		}
+	}
+	// introducer options: any subset of ih / iexp / itag 0..3, each with its own value
+	if rapid.IntRange(0, 3).Draw(t, "introducers") == 0 {
+		for _, pfx := range []string{"ih", "iexp", "itag"} {
+			for n := 0; n <= 3; n++ {
+				if rapid.IntRange(0, 2).Draw(t, "hasintro") > 0 {
+					add(fmt.Sprintf("%s%d", pfx, n), fmt.Sprintf("%s-value-%d-%d", pfx, n, rapid.IntRange(0, 9).Draw(t, "introval")))
+				}
+			}
 		}
 	}
 	// s and i: raw bytes of the right and of neighbouring lengths, and the I2P-base64
